@@ -124,10 +124,14 @@ def make(**params):
     return Part(**params)
 
 
-def job(prop, alg, n, k, **kw):
+def job(prop, alg, n, k, mandatory=True, **kw):
     params = dict(alg=alg, n=n, k=k, **kw)
     tag = ' '.join('%s=%s' % (a, b) for a, b in sorted(kw.items()) if a not in ('checks',) and b not in (None,))
     j = {'id': '%s (%d,%d) %s' % (alg, n, k, tag), 'factory': 'harness.part:make', 'params': params}
+    if not mandatory:
+        j['mandatory'] = False
+    if alg == 'dp':
+        j['loose'] = True          # DP takes min() over a set: ties are broken by hash order (stub S3)
     if alg == 'ilp':
         j['validate'] = False      # sampled-path validation runs the real CBC, which need not pick the stub's optimum
     return j
